@@ -213,6 +213,19 @@ func pkceFullCheck(c *Ctx, p *Path, V, C, M *Term) string {
 				continue
 			}
 			sum := enc.Args[1]
+			// one-shot form: sha256.Sum256([]byte(V))[:]
+			if sum.Op == "slice" && len(sum.Args) == 3 && sum.Args[1].Key() == tConst("_").Key() && sum.Args[2].Key() == tConst("_").Key() {
+				if d := sum.Args[0]; d.IsCall("sha256.Sum256") && len(d.Args) == 1 {
+					arg := d.Args[0]
+					for arg.Op == "convert" && len(arg.Args) == 1 {
+						arg = arg.Args[0]
+					}
+					if arg.Key() == V.Key() {
+						found = true
+					}
+				}
+				continue
+			}
 			if !sum.IsCall(".Sum") || len(sum.Args) < 1 {
 				continue
 			}
